@@ -310,10 +310,14 @@ func (iv *Intervals) def(v ssa.Value, at ssa.Instruction) Interval {
 		iv.inprog[v] = true
 		defer delete(iv.inprog, v)
 		res := Interval{1, 0} // empty
-		var cyc []ssa.Value
+		type cycEdge struct {
+			v ssa.Value
+			k int
+		}
+		var cyc []cycEdge
 		for k, e := range x.Edges {
 			if DependsOn(e, x) {
-				cyc = append(cyc, e)
+				cyc = append(cyc, cycEdge{e, k})
 				continue
 			}
 			pred := x.Block().Preds[k]
@@ -325,7 +329,8 @@ func (iv *Intervals) def(v ssa.Value, at ssa.Instruction) Interval {
 			}
 			res = res.Join(ei)
 		}
-		for _, e := range cyc {
+		for _, ce := range cyc {
+			e := ce.v
 			// monotone updates keep one bound
 			if b, ok := e.(*ssa.BinOp); ok && (b.Op == token.ADD || b.Op == token.SUB) && b.X == ssa.Value(x) {
 				if n, ok := ConstInt(b.Y); ok {
@@ -337,7 +342,14 @@ func (iv *Intervals) def(v ssa.Value, at ssa.Instruction) Interval {
 					continue
 				}
 			}
-			return tr
+			// general cyclic edge: evaluate with this phi held at its type range
+			pred := x.Block().Preds[ce.k]
+			last := pred.Instrs[len(pred.Instrs)-1]
+			ei := iv.At(e, last)
+			if iff, ok := last.(*ssa.If); ok && pred.Succs[0] != pred.Succs[1] {
+				ei = iv.refine(ei, e, Guard{If: iff, Branch: pred.Succs[0] == x.Block()})
+			}
+			res = res.Join(ei)
 		}
 		if res.Empty() {
 			return tr
